@@ -14,7 +14,8 @@ PROVED = ['the log-linear interpolation behind every inserted node reproduces bo
           'the k-th of n equal subdivisions lies strictly inside its segment; 10**log10 d = d for d > 0',
           'the fractions of the discretised grading are strictly increasing for EVERY input (dict overwrite keeps keys pairwise distinct through all loops; sorted() of distinct keys is strictly increasing)',
           'for every well-formed input (given points strictly increasing in fraction and diameter, fractions in [0, B], the last given diameter not below the limit): every fraction lies in [0, max(B, 0.999)], i.e. inside [0,1) for B < 1',
-          'for B < 0.999 and no given diameter exactly on the limit: the diameters are strictly increasing along the fractions; no node lies below the limiting diameter; if the first remaining segment reaches the limit at a positive fraction X then (X, limit) is a node and no node lies left of it; the grading has AT LEAST THE REQUESTED NUMBER of nodes (any input length, any requested number >= 3: every inserted key is new and points_left x (between + 1) >= num_fracs - 1 with the rounded-up quotient); every given point from the upper end of the first remaining segment onwards is a node, i.e. reproduced exactly (invariants carried through the skip, the segment loop, the subdivision loop and the extrapolated top node)',
+          'for B < 0.999 and the last given diameter strictly above the limit: the diameters are strictly increasing along the fractions; no node lies below the limiting diameter; if the first remaining segment reaches the limit at a positive fraction X then (X, limit) is a node and no node lies left of it; the grading has AT LEAST THE REQUESTED NUMBER of nodes (any input length, any requested number >= 3: every inserted key is new and points_left x (between + 1) >= num_fracs - 1 with the rounded-up quotient); every given point from the upper end of the first remaining segment onwards is a node, i.e. reproduced exactly (invariants carried through the skip, the segment loop, the subdivision loop and the extrapolated top node)',
+          'corollary for the grading the slurry object builds (D15 < D50 < D85 at 0.15 / 0.5 / 0.85, D85 above the limit): at least ten nodes, fractions strictly increasing in [0,1), diameters strictly increasing and never below the limit, D85 itself a node',
           'get_dx rejects every fraction outside (0,1), returns the tabulated diameter at a tabulated fraction, and is the C18 lookup on (fraction, log10 d) in between']
 HYPOTHESES = []
 MONITORED = ['global clauses on the whole output not yet proved (reproduction by interpolation of a given point that is not a node, i.e. the lower end of the first remaining segment) and, as a cross-check of the proved ones on doubles, ordering / range / start node - decided by the oracle on the implementation for every generated grading; '
